@@ -132,8 +132,8 @@ def run(chk, replay=None):
     # Internal backend's scheduler (0 = none)
     plans = [("TBB", 4, 0), ("OpenMP", 4, 0), ("Internal", 4, 0), ("Debug", 4, 0), ("Internal", 2, 0), ("Internal", 3, chk.seed * 7 + 1)]
     if not quick:
-        plans += [("Internal", 3, 0), ("Internal", 8, 0), ("Internal", 1, 0), ("TBB", 2, 0), ("TBB", 8, 0), ("OpenMP", 2, 0), ("TBB", 1, 0)]
-        plans += [("Internal", t, chk.seed * 100 + k) for k in range(1, 9) for t in (2, 4)]
+        plans += [("Internal", 3, 0), ("Internal", 8, 0), ("Internal", 1, 0), ("TBB", 2, 0), ("TBB", 8, 0), ("OpenMP", 2, 0)]
+        plans += [("Internal", t, chk.seed * 100 + k) for k in range(1, 4) for t in (2, 4)]
     if os.environ.get("VERIF_C01_PLANS"):      # development aid: VERIF_C01_PLANS="Internal:4,TBB:2"
         plans = [(x.split(":")[0], int(x.split(":")[1]), int((x.split(":") + ["0"])[2])) for x in os.environ["VERIF_C01_PLANS"].split(",")]
     total_events = 0
@@ -174,7 +174,7 @@ def run(chk, replay=None):
     if not os.environ.get("VERIF_C01_PLANS") or "stress" in os.environ.get("VERIF_C01_PLANS", ""):
         exe = build.build("drv_par_for", backend="Internal")
         base = {"api": "for", "B": 1, "type": "i32", "nest": {"api": "none", "n": 0, "B": 0}, "cost": "none", "prefill": 0, "cpus": 4}
-        R = 15000 if quick else 100000
+        R = 15000 if quick else 60000
         stress = [dict(base, n=240, rounds=R), dict(base, n=56, rounds=R // 3)]
         if not quick:
             stress += [dict(base, n=1000, rounds=R // 5), dict(base, api="blocks", B=3, n=240, rounds=R // 3)]
